@@ -4,26 +4,29 @@
 -/
 import Hw.Io.SyntheticWF
 import Hw.Io.SyntheticWF2
+import Hw.Io.SyntheticWF5
+import Hw.Io.SyntheticWF6
 namespace Hw.Syn
 open Hw Hw.Topo
 
-/-- object-level clauses of `Hw.Topo.objClauses` proved for every `t` with `topoOK t` -/
+/-- object-level clauses of `Hw.Topo.objClauses` proved for every `t` with `topoOK t` and `puOK t` -/
 def provedObjClauses : List String :=
   ["id-is-position", "type-in-range", "not-filtered-out", "root-or-parent", "parent-kind", "normal-child-slot", "children-array",
    "special-list-heads", "special-list-links", "no-children-where-forbidden", "depth-by-type", "depth-increases",
-   "sets-presence", "set-in-complete", "pu-cpuset", "numa-nodeset", "memory-child-shares-cpuset", "cache-attrs", "group-depth"]
+   "sets-presence", "set-in-complete", "pu-cpuset", "numa-nodeset", "memory-child-shares-cpuset", "cache-attrs", "group-depth",
+   "children-counts", "cpuset-is-disjoint-union-of-children", "memcache-nodeset", "pu-allowed", "total-memory"]
 
 /-- topology-level clauses of `Hw.Topo.topClauses` proved for every `t` with `topoOK t` -/
 def provedTopClauses : List String :=
   ["nobjs", "root-is-machine", "machine-only-at-root", "level0-is-root", "pu-level-deepest", "levels-listed",
-   "normal-level-types", "allowed-sets", "gp-index-unique", "normal-levels-nonempty", "depth-le-objects"]
+   "normal-level-types", "allowed-sets", "gp-index-unique", "normal-levels-nonempty", "depth-le-objects", "pu-osindex-unique"]
 
 theorem cl_id_is_position (t : Topo) (o : Obj) (ho : o ∈ (toDump t).objs) :
     (fun (d : Dump) (_ : Aux) (o : Obj) => (d.objs[o.id]?).map (·.id) == some o.id) (toDump t) (mkAux (toDump t)) o = true := by
   simp only [beq_iff_eq]
   exact toDump_id_is_position t o ho
 
-theorem obj_clauses_proved (t : Topo) (h : OK t) : ∀ c ∈ objClauses, c.1 ∈ provedObjClauses →
+theorem obj_clauses_proved (t : Topo) (h : OK t) (hp : puOK t = true) : ∀ c ∈ objClauses, c.1 ∈ provedObjClauses →
     ∀ o ∈ (toDump t).objs, c.2 (toDump t) (mkAux (toDump t)) o = true := by
   intro c hc hn
   unfold objClauses at hc
@@ -50,9 +53,14 @@ theorem obj_clauses_proved (t : Topo) (h : OK t) : ∀ c ∈ objClauses, c.1 ∈
     | exact cl_memory_child_cpuset t h
     | exact cl_cache_attrs t h
     | exact cl_group_depth t h
+    | exact cl_children_counts t h
+    | exact cl_cpuset_union t h hp
+    | exact cl_memcache_nodeset t h
+    | exact cl_pu_allowed t h
+    | exact cl_total_memory t h
     | (exfalso; simp [provedObjClauses] at hn)
 
-theorem top_clauses_proved (t : Topo) (h : OK t) : ∀ c ∈ topClauses, c.1 ∈ provedTopClauses →
+theorem top_clauses_proved (t : Topo) (h : OK t) (hp : puOK t = true) : ∀ c ∈ topClauses, c.1 ∈ provedTopClauses →
     c.2 (toDump t) (mkAux (toDump t)) = true := by
   intro c hc hn
   unfold topClauses at hc
@@ -70,6 +78,7 @@ theorem top_clauses_proved (t : Topo) (h : OK t) : ∀ c ∈ topClauses, c.1 ∈
     | exact tc_gp_unique t h
     | exact tc_normal_levels_nonempty t h
     | exact tc_depth_le_objects t h
+    | exact tc_pu_osindex_unique t h hp
     | (exfalso; simp [provedTopClauses] at hn)
 
 /-- the clauses that are NOT proved in general, evaluated on a dump -/
@@ -78,17 +87,17 @@ def restOK (d : Dump) : Bool :=
   (objClauses.filter (fun c => !provedObjClauses.contains c.1)).all (fun c => d.objs.all (fun o => c.2 d (mkAux d) o))
 
 /-- `WF (toDump t)` is reduced to the unproved clauses -/
-theorem wf_of_rest (t : Topo) (h : OK t) (hr : restOK (toDump t) = true) : WF (toDump t) := by
+theorem wf_of_rest (t : Topo) (h : OK t) (hp : puOK t = true) (hr : restOK (toDump t) = true) : WF (toDump t) := by
   unfold restOK at hr
   simp only [Bool.and_eq_true, List.all_eq_true, List.mem_filter, Bool.not_eq_true', and_imp] at hr
   constructor
   · intro c hc
     by_cases hn : c.1 ∈ provedTopClauses
-    · exact top_clauses_proved t h c hc hn
+    · exact top_clauses_proved t h hp c hc hn
     · exact hr.1 c hc (by simpa using hn)
   · intro c hc o ho
     by_cases hn : c.1 ∈ provedObjClauses
-    · exact obj_clauses_proved t h c hc hn o ho
+    · exact obj_clauses_proved t h hp c hc hn o ho
     · exact hr.2 c hc (by simpa using hn) o ho
 
 end Hw.Syn
